@@ -14,6 +14,11 @@ Design notes
   built from total operations only and then dropped;
 * `isinstance(other, type(self))` guards are dropped (the model is typed);
 * logging.debug(...) statements are dropped.
+
+A second generator (gen_term, section "PolyhedralTerm" below) renders the pure methods of
+pacti.terms.polyhedra.polyhedra.PolyhedralTerm (dicts of floats, loops, comprehensions, in-place
+updates of local copies) into gen/TermGen.v over the vocabulary of coq/base/PyDict.v;
+proofs/TermGenFacts.v proves each generated function equal to the hand model of model/Term.v.
 """
 from __future__ import annotations
 
@@ -1056,6 +1061,980 @@ def gen_consts(poly_path, pc_path) -> str:
     return out
 
 
+# ================================================================ PolyhedralTerm  (gen/TermGen.v)
+# A second, self-contained generator for the pure methods of
+# pacti.terms.polyhedra.polyhedra.PolyhedralTerm.  Target vocabulary: coq/base/PyDict.v (one named
+# primitive per Python construct).  Differences with the algebra generator above:
+# * dict / float values, for-loops (with break), dict comprehensions, in-place updates of local objects;
+# * whether a method is monadic is INFERRED from its body (d[k], d.pop(k), `/`, raise, or a call to a
+#   monadic method), so that a change which adds a raising construct to a pure method changes the
+#   type of the generated function and breaks the proofs instead of the translator;
+# * in-place updates (`obj.variables[k] = v`, `obj.variables.pop(k)`, `d[k] = v`, `l.append(x)`) are
+#   rendered as rebinding of an immutable value.  That is sound only if no other name refers to the
+#   updated object.  Checked syntactically: the updated name must be *owned*, i.e. its latest
+#   assignment in the same function is `X.copy()`, `PolyhedralTerm(...)` (both build a new dict:
+#   __init__ is itself translated and checked to store a dict literal it filled itself), `{}`, `[]`
+#   or a dict comprehension, and it has not been copied to another name since.
+
+PT_CLASS = "PolyhedralTerm"
+PT_METHODS = ["__init__", "vars", "contains_var", "get_coefficient", "__eq__", "copy", "__add__", "get_polarity",
+              "get_sign", "get_matching_vars", "remove_variable", "rename_variable", "multiply",
+              "substitute_variable", "isolate_variable"]
+PT_SKIP = ["__str__", "__hash__", "__repr__", "to_symbolic", "to_term", "term_to_polytope", "polytope_to_term",
+           "solve_for_variables"]
+PT_OPNAME = {"__init__": "init", "__eq__": "eq", "__add__": "add"}
+PT_ANNOT = {"Dict[Var, numeric]": "D", "numeric": "F", "object": "T", "Var": "V", "bool": "B", "PolyhedralTerm": "T",
+            "Dict[Var, bool]": "DB", "int": "F", "List[Var]": "LV", "float": "F"}
+PT_COQTY = {"V": "var", "F": "Q", "B": "bool", "T": "pterm", "D": "pvars", "DB": "bdict", "LV": "list var",
+            "KV": "list var"}
+PT_VOCAB = {
+    "qzero", "qadd", "qsub", "qmul", "qdiv", "qneg", "qabs", "qle", "qlt", "qge", "qgt", "q_eqb", "q_neb", "np_equal",
+    "py_float", "py_div", "assoc", "has_key", "dict_set", "dict_pop", "keys", "dict_empty", "dict_keys", "py_list",
+    "dict_get", "dict_pop_m", "keyview_eqb", "bdict", "bassoc", "bdict_keys", "bdict_get", "list_empty",
+    "list_append", "set_variables", "ctl", "Continue", "Break", "for_list", "for_list_m", "for_items", "for_items_m",
+    "dict_comp", "dict_comp_m", "ret", "raise", "bind", "py_in", "py_eqb", "negb", "eqb", "mkT", "tvars", "tconst",
+    "pterm", "pvars", "var", "true", "false", "list_union", "list_diff", "list_intersection", "M", "Q", "bool", "list",
+    "ValueErr", "Escape", "err", "inl", "inr", "fst", "snd", "pair", "nil", "cons", "app",
+}
+COQ_KEYWORDS = {"match", "end", "with", "fun", "let", "in", "if", "then", "else", "return", "fix", "cofix", "forall",
+                "exists", "exists2", "as", "at", "using", "where", "for", "struct", "Type", "Set", "Prop", "SProp",
+                "IF", "mod"}
+
+
+class NeedMonad(Exception):
+    """raised while translating in pure mode when a construct that may raise is met"""
+
+
+def pt_cid(name: str) -> str:
+    """Coq identifier for a Python local"""
+    import re
+    if re.match(r"^[a-z]_\d+$", name) or name.startswith(PT_CLASS + "_") or name.startswith("self_"):
+        raise Unsupported(f"local name {name} collides with generated names")
+    if name in COQ_KEYWORDS or name in PT_VOCAB:
+        return name + "_"
+    return name
+
+
+def pt_name(meth: str) -> str:
+    return f"{PT_CLASS}_{PT_OPNAME.get(meth, meth)}"
+
+
+def qlit(v) -> str:
+    from fractions import Fraction
+    if isinstance(v, bool) or not isinstance(v, (int, float)) or v != v or v in (float("inf"), float("-inf")):
+        raise Unsupported(f"numeric literal {v!r}")
+    fr = Fraction(v)
+    return f"({fr.numerator} # {fr.denominator})"
+
+
+class Ctx:
+    """what happens when a block falls off its end / breaks, and whether `return` is allowed"""
+
+    def __init__(self, fall, brk=None, ret_ok=False):
+        self.fall, self.brk, self.ret_ok = fall, brk, ret_ok
+
+
+class TermFn:
+    """Translate one method of PolyhedralTerm."""
+
+    def __init__(self, fdef: ast.FunctionDef, sigs: dict, done: dict, assumptions: List[str]):
+        self.f = fdef
+        self.sigs = sigs          # method -> [(param, type, default ast)]  (without self), all methods
+        self.done = done          # method -> (monadic?, return type) for the methods already generated
+        self.assumptions = assumptions
+        self.monadic = False
+        self.tmp = 0
+        self.fields: Dict[str, str] = {}
+        self.rtype = None
+
+    # ---------------------------------------------------------------- helpers
+    def fresh(self, base="t"):
+        self.tmp += 1
+        return f"{base}_{self.tmp}"
+
+    def ret(self, c):
+        return f"ret {c}" if self.monadic else c
+
+    def need_monad(self, what):
+        if not self.monadic:
+            raise NeedMonad(what)
+
+    def emit_binds(self, pre, body, ind):
+        out = ""
+        for pat, m in pre:
+            self.need_monad(m)
+            out += f"{ind}{pat} <- {m} ;;\n"
+        return out + body
+
+    def sub(self, thunk):
+        """translate a sub-block: pure if possible, otherwise monadic (only inside a monadic function).
+        Returns (text, was_monadic)."""
+        if not self.monadic:
+            return thunk(), False
+        saved_tmp, saved_ass = self.tmp, list(self.assumptions)
+        self.monadic = False
+        try:
+            return thunk(), False
+        except NeedMonad:
+            self.tmp = saved_tmp
+            self.assumptions[:] = saved_ass
+            self.monadic = True
+            return thunk(), True
+        finally:
+            self.monadic = True
+
+    @staticmethod
+    def owned(env):
+        return env.get("%owned", frozenset())
+
+    @staticmethod
+    def with_owned(env, name, flag):
+        env2 = dict(env)
+        o = set(env.get("%owned", frozenset()))
+        (o.add if flag else o.discard)(name)
+        env2["%owned"] = frozenset(o)
+        return env2
+
+    # ---------------------------------------------------------------- expressions
+    # returns (prebinds [(name, monadic expr)], coq expr, type, fresh?)
+    def tx(self, e, env):
+        p, c, t, _ = self.txf(e, env)
+        return p, c, t
+
+    def txf(self, e, env):
+        if isinstance(e, ast.Name):
+            if e.id not in env or e.id.startswith("%"):
+                fail(e, "unbound name")
+            return [], pt_cid(e.id), env[e.id], False
+        if isinstance(e, ast.Constant):
+            if e.value is True:
+                return [], "true", "B", False
+            if e.value is False:
+                return [], "false", "B", False
+            if isinstance(e.value, (int, float)):
+                return [], qlit(e.value), "F", False
+            fail(e, "constant")
+        if isinstance(e, ast.Dict):
+            if e.keys:
+                fail(e, "non-empty dict literal")
+            return [], "dict_empty", "D", True
+        if isinstance(e, ast.List):
+            if e.elts:
+                fail(e, "non-empty list literal")
+            return [], "list_empty", "LV", True
+        if isinstance(e, ast.Attribute):
+            p, c, t = self.tx(e.value, env)
+            if t == "T" and isinstance(e.value, ast.Name) and e.value.id == "self" and self.f.name == "__init__":
+                fail(e, "reading a field of self inside __init__")
+            if t == "T" and e.attr == "variables":
+                return p, f"(tvars {c})", "D", False
+            if t == "T" and e.attr == "constant":
+                return p, f"(tconst {c})", "F", False
+            if t == "T" and e.attr == "vars":
+                pp, cc, tt = self.call_method(e, "vars", c, [], {}, env)
+                return p + pp, cc, tt, True
+            fail(e, f"attribute {e.attr} of type {t}")
+        if isinstance(e, ast.Subscript):
+            if not isinstance(e.ctx, ast.Load):
+                fail(e, "subscript context")
+            (p1, c1, t1), (p2, c2, t2) = self.tx(e.value, env), self.tx(e.slice, env)
+            if t2 != "V" or t1 not in {"D", "DB"}:
+                fail(e, f"subscript {t1}[{t2}]")
+            tmp = self.fresh()
+            prim = "dict_get" if t1 == "D" else "bdict_get"
+            return p1 + p2 + [(tmp, f"{prim} {c1} {c2}")], tmp, "F" if t1 == "D" else "B", False
+        if isinstance(e, ast.Call):
+            return self.tx_call(e, env)
+        if isinstance(e, ast.BinOp):
+            (p1, c1, t1), (p2, c2, t2) = self.tx(e.left, env), self.tx(e.right, env)
+            if t1 == "F" and t2 == "F":
+                op = {ast.Add: "qadd", ast.Sub: "qsub", ast.Mult: "qmul"}.get(type(e.op))
+                if op:
+                    return p1 + p2, f"({op} {c1} {c2})", "F", False
+                if isinstance(e.op, ast.Div):
+                    tmp = self.fresh()
+                    return p1 + p2 + [(tmp, f"py_div {c1} {c2}")], tmp, "F", False
+            if t1 == "T" and t2 == "T" and isinstance(e.op, ast.Add):
+                pp, cc, tt = self.call_method(e, "__add__", c1, [(c2, t2)], {}, env)
+                return p1 + p2 + pp, cc, tt, True
+            fail(e, f"binary operator on {t1},{t2}")
+        if isinstance(e, ast.UnaryOp):
+            if isinstance(e.op, ast.USub) and isinstance(e.operand, ast.Constant) \
+                    and isinstance(e.operand.value, (int, float)) and not isinstance(e.operand.value, bool):
+                return [], qlit(-e.operand.value), "F", False
+            p, c, t = self.tx(e.operand, env)
+            if isinstance(e.op, ast.Not) and t == "B":
+                return p, f"(negb {c})", "B", False
+            if isinstance(e.op, ast.USub) and t == "F":
+                return p, f"(qneg {c})", "F", False
+            fail(e, f"unary operator on {t}")
+        if isinstance(e, ast.BoolOp):
+            return self.tx_boolop(e, env)
+        if isinstance(e, ast.Compare):
+            return self.tx_compare(e, env)
+        if isinstance(e, ast.DictComp):
+            return self.tx_dictcomp(e, env)
+        fail(e, "expression form")
+
+    def inline_m(self, pre, c):
+        """one-line monadic expression: binds, then the value"""
+        self.need_monad(c)
+        if pre and pre[-1][0] == c:
+            return "".join(f"{n} <- {m} ;; " for n, m in pre[:-1]) + pre[-1][1]
+        return "".join(f"{n} <- {m} ;; " for n, m in pre) + f"ret {c}"
+
+    def tx_boolop(self, e, env):
+        parts = [self.tx(v, env) for v in e.values]
+        for _, _, t in parts:
+            if t != "B":
+                fail(e, f"and/or on a value of type {t} (only bool operands are supported)")
+        is_and = isinstance(e.op, ast.And)
+        if not any(p for p, _, _ in parts[1:]):
+            op = "&&" if is_and else "||"
+            return parts[0][0], "(" + f" {op} ".join(c for _, c, _ in parts) + ")", "B", False
+        # short circuit: operands after the first are evaluated only if needed
+        pn, cn, _ = parts[-1]
+        acc = self.inline_m(pn, cn)
+        for p, c, _ in reversed(parts[1:-1]):
+            inner = f"if {c} then ({acc}) else ret false" if is_and else f"if {c} then ret true else ({acc})"
+            acc = "".join(f"{n} <- {m} ;; " for n, m in p) + inner
+        p0, c0, _ = parts[0]
+        tmp = self.fresh()
+        expr = f"(if {c0} then ({acc}) else ret false)" if is_and else f"(if {c0} then ret true else ({acc}))"
+        return p0 + [(tmp, expr)], tmp, "B", False
+
+    def tx_compare(self, e, env):
+        if len(e.ops) != 1:
+            fail(e, "chained comparison")
+        op = e.ops[0]
+        (p1, c1, t1), (p2, c2, t2) = self.tx(e.left, env), self.tx(e.comparators[0], env)
+        pre = p1 + p2
+        neg = isinstance(op, (ast.NotIn, ast.NotEq))
+        r = None
+        if isinstance(op, (ast.In, ast.NotIn)):
+            if t1 == "V" and t2 in {"LV", "KV"}:
+                r = f"(py_in {c1} {c2})"
+            elif t1 == "V" and t2 == "D":
+                r = f"(has_key {c1} {c2})"
+        elif isinstance(op, (ast.Eq, ast.NotEq)):
+            if t1 == t2 == "V":
+                r = f"(py_eqb {c1} {c2})"
+            elif t1 == t2 == "F":
+                return pre, f"({'q_neb' if neg else 'q_eqb'} {c1} {c2})", "B", False
+            elif t1 == t2 == "B":
+                r = f"(Bool.eqb {c1} {c2})"
+            elif t1 == t2 == "KV":
+                r = f"(keyview_eqb {c1} {c2})"
+            elif t1 == t2 == "T":
+                pp, cc, _ = self.call_method(e, "__eq__", c1, [(c2, t2)], {}, env)
+                pre, r = pre + pp, cc
+        elif t1 == t2 == "F":
+            prim = {ast.GtE: "qge", ast.LtE: "qle", ast.Gt: "qgt", ast.Lt: "qlt"}.get(type(op))
+            if prim:
+                return pre, f"({prim} {c1} {c2})", "B", False
+        if r is None:
+            fail(e, f"comparison {type(op).__name__} on {t1},{t2}")
+        return pre, f"(negb {r})" if neg else r, "B", False
+
+    def tx_dictcomp(self, e, env):
+        if len(e.generators) != 1:
+            fail(e, "nested comprehension")
+        g = e.generators[0]
+        if g.is_async:
+            fail(e, "async comprehension")
+        src = self.items_source(g.iter, env) or fail(e, "dict comprehension over something else than d.items()")
+        pi, ci = src
+        if not (isinstance(g.target, ast.Tuple) and len(g.target.elts) == 2
+                and all(isinstance(x, ast.Name) for x in g.target.elts)):
+            fail(e, "comprehension target")
+        kn, vn = (x.id for x in g.target.elts)
+        env2 = dict(env)
+        env2[kn], env2[vn] = "V", "F"
+        lam = f"fun {pt_cid(kn)} {pt_cid(vn)} =>"
+        conds = []
+        for cond in g.ifs:
+            pc, cc, tc = self.tx(cond, env2)
+            if pc or tc != "B":
+                fail(cond, "comprehension condition must be a bool expression that cannot raise")
+            conds.append(cc)
+        cond = " && ".join(conds) if conds else "true"
+        pk, ck, tk = self.tx(e.key, env2)
+        if pk or tk != "V":
+            fail(e.key, "comprehension key must be a Var expression that cannot raise")
+        pv, cv, tv = self.tx(e.value, env2)
+        if tv != "F":
+            fail(e.value, f"comprehension value of type {tv}")
+        if pv:
+            tmp = self.fresh("d")
+            val = self.inline_m(pv, cv)
+            return pi + [(tmp, f"dict_comp_m {ci} ({lam} {cond}) ({lam} {ck}) ({lam} {val})")], tmp, "D", True
+        return pi, f"(dict_comp {ci} ({lam} {cond}) ({lam} {ck}) ({lam} {cv}))", "D", True
+
+    def items_source(self, it, env):
+        """`X.items()` with X a {Var: float} dict -> (prebinds, coq expr of the association list)"""
+        if isinstance(it, ast.Call) and isinstance(it.func, ast.Attribute) and it.func.attr == "items" \
+                and not it.args and not it.keywords:
+            p, c, t = self.tx(it.func.value, env)
+            if t == "D":
+                return p, c
+        return None
+
+    def call_method(self, node, m, c0, args, kws, env):
+        """call of method m on the term c0; args [(coq, type)], kws {name: (coq, type)}"""
+        if m not in self.sigs:
+            fail(node, f"method {m} of {PT_CLASS} is not among the translated methods")
+        if m not in self.done:
+            fail(node, f"call to {m}, which is not generated yet (recursion or a cycle between methods)")
+        mon, rty = self.done[m]
+        sig = self.sigs[m]
+        if len(args) > len(sig) or set(kws) - {pn for pn, _, _ in sig}:
+            fail(node, f"arguments of {m}")
+        full = []
+        for i, (pn, pt, pd) in enumerate(sig):
+            if i < len(args):
+                if pn in kws:
+                    fail(node, f"argument {pn} given twice")
+                c, t = args[i]
+            elif pn in kws:
+                c, t = kws[pn]
+            elif pd is not None:
+                pp, c, t = self.tx(pd, {})
+                if pp:
+                    fail(node, "default value")
+            else:
+                fail(node, f"missing argument {pn} of {m}")
+            if t != pt:
+                fail(node, f"argument {pn} of {m}: expected {pt}, got {t}")
+            full.append(c)
+        call = " ".join([pt_name(m), c0] + full) if m != "__init__" else " ".join([pt_name(m)] + full)
+        if mon:
+            tmp = self.fresh()
+            return [(tmp, call)], tmp, rty
+        return [], f"({call})", rty
+
+    def tx_call(self, e, env):
+        f = e.func
+        if any(k.arg is None for k in e.keywords) or any(isinstance(a, ast.Starred) for a in e.args):
+            fail(e, "*args / **kwargs")
+        # evaluation order: positional arguments, then keyword arguments, left to right
+        if isinstance(f, ast.Name):
+            if f.id in env:
+                fail(e, "call of a local")
+            parts = [self.tx(a, env) for a in e.args]
+            kparts = {k.arg: self.tx(k.value, env) for k in e.keywords}
+            pre = [b for p, _, _ in parts for b in p] + [b for p, _, _ in kparts.values() for b in p]
+            tys = [t for _, _, t in parts]
+            if f.id == PT_CLASS:
+                pp, cc, tt = self.call_method(e, "__init__", "", [(c, t) for _, c, t in parts],
+                                              {k: (c, t) for k, (_, c, t) in kparts.items()}, env)
+                return pre + pp, cc, tt, True
+            if kparts:
+                fail(e, f"keyword arguments in a call of {f.id}")
+            if f.id == "float" and tys == ["F"]:
+                return pre, f"(py_float {parts[0][1]})", "F", False
+            if f.id == "list" and tys in (["KV"], ["LV"]):
+                return pre, f"(py_list {parts[0][1]})", "LV", True
+            if f.id in LIST_FUNS and tys == ["LV", "LV"]:
+                return pre, f"({f.id} {parts[0][1]} {parts[1][1]})", "LV", True
+            fail(e, f"call to {f.id} on {tys}")
+        if not isinstance(f, ast.Attribute):
+            fail(e, "call form")
+        if isinstance(f.value, ast.Name) and f.value.id not in env:
+            mod = f.value.id
+            if mod == "np" and f.attr == "equal" and len(e.args) == 2 and not e.keywords:
+                (p1, c1, t1), (p2, c2, t2) = self.tx(e.args[0], env), self.tx(e.args[1], env)
+                if t1 == t2 == "F":
+                    return p1 + p2, f"(np_equal {c1} {c2})", "B", False
+            fail(e, f"call to {mod}.{f.attr}")
+        p0, c0, t0 = self.tx(f.value, env)
+        m = f.attr
+        if t0 in {"D", "DB"} and m == "keys" and not e.args and not e.keywords:
+            return p0, f"({'dict_keys' if t0 == 'D' else 'bdict_keys'} {c0})", "KV", False
+        if t0 == "T":
+            if m in {"__init__"} or m.startswith("__"):
+                fail(e, f"explicit call of {m}")
+            if m == "vars":
+                fail(e, "vars is a property")
+            parts = [self.tx(a, env) for a in e.args]
+            kparts = {k.arg: self.tx(k.value, env) for k in e.keywords}
+            pre = p0 + [b for p, _, _ in parts for b in p] + [b for p, _, _ in kparts.values() for b in p]
+            pp, cc, tt = self.call_method(e, m, c0, [(c, t) for _, c, t in parts],
+                                          {k: (c, t) for k, (_, c, t) in kparts.items()}, env)
+            return pre + pp, cc, tt, True
+        fail(e, f"method {m} on type {t0}")
+
+    # ---------------------------------------------------------------- statements
+    def is_dropped(self, s, env) -> bool:
+        if isinstance(s, ast.Expr):
+            v = s.value
+            if isinstance(v, ast.Constant) and isinstance(v.value, str):
+                return True
+            if isinstance(v, ast.Call) and isinstance(v.func, ast.Attribute) and isinstance(v.func.value, ast.Name) \
+                    and v.func.value.id == "logging" and v.func.attr == "debug" and "logging" not in env:
+                for a in v.args:
+                    check_message_total(a)
+                if v.keywords:
+                    fail(s, "keyword argument of logging.debug")
+                return True
+        # `if not isinstance(other, type(self)): raise ...` on a parameter the model types as a term
+        if isinstance(s, ast.If) and not s.orelse and len(s.body) == 1 and isinstance(s.body[0], ast.Raise):
+            t = s.test
+            if isinstance(t, ast.UnaryOp) and isinstance(t.op, ast.Not) and isinstance(t.operand, ast.Call) \
+                    and ast.unparse(t.operand.func) == "isinstance" and len(t.operand.args) == 2 \
+                    and isinstance(t.operand.args[0], ast.Name) and env.get(t.operand.args[0].id) == "T" \
+                    and ast.unparse(t.operand.args[1]) == "type(self)":
+                self.assumptions.append(f"{PT_CLASS}.{self.f.name}: `isinstance({t.operand.args[0].id}, type(self))` "
+                                        "guard dropped (the model is typed: the argument is a term)")
+                return True
+        return False
+
+    def str_guard(self, s, env):
+        """`if isinstance(x, str): raise ... else: S` with x a Var in the typed model -> S"""
+        t = s.test
+        if isinstance(t, ast.Call) and ast.unparse(t.func) == "isinstance" and len(t.args) == 2 \
+                and isinstance(t.args[0], ast.Name) and env.get(t.args[0].id) == "V" \
+                and ast.unparse(t.args[1]) == "str" and len(s.body) == 1 and isinstance(s.body[0], ast.Raise):
+            self.assumptions.append(f"{PT_CLASS}.{self.f.name}: `isinstance({t.args[0].id}, str)` is False in the typed "
+                                    "model (dict keys are Var); the raising branch is dropped")
+            return list(s.orelse)
+        return None
+
+    def terminates(self, stmts) -> bool:
+        if not stmts:
+            return False
+        s = stmts[-1]
+        if isinstance(s, (ast.Raise, ast.Return, ast.Break)):
+            return True
+        if isinstance(s, ast.If):
+            return bool(s.orelse) and self.terminates(s.body) and self.terminates(s.orelse)
+        return False
+
+    def assigned(self, stmts) -> List[str]:
+        """local names (re)bound by the statements, in order of first occurrence"""
+        out: List[str] = []
+
+        def add(n):
+            if n not in out:
+                out.append(n)
+
+        def target(n):
+            if isinstance(n, ast.Name):
+                add(n.id)
+            elif isinstance(n, ast.Tuple):
+                for x in n.elts:
+                    target(x)
+            elif isinstance(n, ast.Subscript):
+                base = n.value
+                if isinstance(base, ast.Attribute):
+                    base = base.value
+                if isinstance(base, ast.Name):
+                    add(base.id)
+                else:
+                    fail(n, "assignment target")
+            elif isinstance(n, ast.Attribute) and isinstance(n.value, ast.Name):
+                add("self_" + n.attr if n.value.id == "self" else n.value.id)
+            else:
+                fail(n, "assignment target")
+
+        for s in stmts:
+            if isinstance(s, ast.Assign):
+                for t in s.targets:
+                    target(t)
+            elif isinstance(s, (ast.AugAssign, ast.AnnAssign)):
+                target(s.target)
+            elif isinstance(s, ast.Expr) and isinstance(s.value, ast.Call) and isinstance(s.value.func, ast.Attribute):
+                base = s.value.func.value
+                if isinstance(base, ast.Attribute):
+                    base = base.value
+                if isinstance(base, ast.Name) and s.value.func.attr in {"append", "pop"}:
+                    add(base.id)
+            elif isinstance(s, ast.If):
+                for n in self.assigned(s.body) + self.assigned(s.orelse):
+                    add(n)
+            elif isinstance(s, ast.For):
+                # the loop variables are local to the loop in the model (a later use is an unbound name)
+                for n in self.assigned(s.body):
+                    add(n)
+        return out
+
+    def block(self, stmts, env, ind, ctx: Ctx) -> str:
+        if not stmts:
+            return ctx.fall(env, ind)
+        s, rest = stmts[0], list(stmts[1:])
+        if self.is_dropped(s, env):
+            return self.block(rest, env, ind, ctx)
+        if isinstance(s, ast.Return):
+            if rest:
+                fail(s, "statements after return")
+            if not ctx.ret_ok:
+                fail(s, "return inside a loop or inside an if whose branches are joined")
+            if s.value is None:
+                fail(s, "bare return")
+            pre, c, t = self.tx(s.value, env)
+            if t != self.rtype:
+                fail(s, f"return of type {t} in a function declared {self.rtype}")
+            if pre and pre[-1][0] == c:
+                self.need_monad(c)
+                return self.emit_binds(pre[:-1], f"{ind}{pre[-1][1]}", ind)
+            return self.emit_binds(pre, f"{ind}{self.ret(c)}", ind)
+        if isinstance(s, ast.Raise):
+            if rest:
+                fail(s, "statements after raise")
+            return self.tr_raise(s, ind)
+        if isinstance(s, ast.Break):
+            if rest:
+                fail(s, "statements after break")
+            if ctx.brk is None:
+                fail(s, "break outside a loop body (or inside joined branches)")
+            return ctx.brk(env, ind)
+        if isinstance(s, ast.Assign):
+            return self.tr_assign(s, rest, env, ind, ctx)
+        if isinstance(s, ast.AugAssign):
+            return self.tr_augassign(s, rest, env, ind, ctx)
+        if isinstance(s, ast.Expr):
+            return self.tr_expr_stmt(s, rest, env, ind, ctx)
+        if isinstance(s, ast.If):
+            return self.tr_if(s, rest, env, ind, ctx)
+        if isinstance(s, ast.For):
+            return self.tr_for(s, rest, env, ind, ctx)
+        fail(s, "statement form")
+
+    def tr_raise(self, s, ind):
+        exc = s.exc
+        if s.cause is not None:
+            fail(s, "raise ... from")
+        if isinstance(exc, ast.Call) and isinstance(exc.func, ast.Name) and not exc.keywords:
+            name = exc.func.id
+            for a in exc.args:
+                check_message_total(a)
+        elif isinstance(exc, ast.Name):
+            name = exc.id
+        else:
+            fail(s, "raise form")
+        if name not in ERRKIND:
+            fail(s, f"exception class {name}")
+        self.need_monad("raise")
+        return f"{ind}raise {ERRKIND[name]}"
+
+    def bind_value(self, name, pre, c, ind):
+        """text binding the Coq name to the value (pre, c)"""
+        if pre and pre[-1][0] == c:
+            return self.emit_binds(pre[:-1], "", ind) + self.emit_binds([(name, pre[-1][1])], "", ind)
+        return self.emit_binds(pre, f"{ind}let {name} := {c} in\n", ind)
+
+    def require_owned(self, node, name, env, what):
+        if name not in self.owned(env):
+            fail(node, f"in-place {what} of `{name}`, which is not known to be a fresh object of this function "
+                       "(not obtained from .copy(), a constructor call, a literal or a comprehension)")
+
+    def subscript_target(self, tgt, env):
+        """`d[k]` with d a local dict, or `obj.variables[k]` with obj a local term.
+        Returns (name, coq of the dict, rebuild: new dict -> coq of the new value of name, prebinds, coq key)."""
+        pk, ck, tk = self.tx(tgt.slice, env)
+        if tk != "V":
+            fail(tgt, f"dict key of type {tk}")
+        base = tgt.value
+        if isinstance(base, ast.Name) and env.get(base.id) == "D":
+            n = pt_cid(base.id)
+            self.require_owned(tgt, base.id, env, "update")
+            return base.id, n, (lambda d: d), pk, ck
+        if isinstance(base, ast.Attribute) and base.attr == "variables" and isinstance(base.value, ast.Name) \
+                and env.get(base.value.id) == "T":
+            n = pt_cid(base.value.id)
+            self.require_owned(tgt, base.value.id, env, "update")
+            return base.value.id, f"(tvars {n})", (lambda d: f"set_variables {n} {d}"), pk, ck
+        fail(tgt, "subscript assignment target")
+
+    def tr_assign(self, s, rest, env, ind, ctx):
+        if len(s.targets) != 1:
+            fail(s, "multiple assignment targets")
+        tgt = s.targets[0]
+        if isinstance(tgt, ast.Name):
+            if tgt.id == "self" or tgt.id.startswith("%"):
+                fail(s, "assignment to self")
+            pre, c, t, fresh = self.txf(s.value, env)
+            env2 = dict(env)
+            env2[tgt.id] = t
+            env2 = self.with_owned(env2, tgt.id, fresh and t in {"T", "D", "LV"})
+            if isinstance(s.value, ast.Name):
+                # a second name for the same object: neither may be updated in place any more
+                env2 = self.with_owned(env2, s.value.id, False)
+            return self.bind_value(pt_cid(tgt.id), pre, c, ind) + self.block(rest, env2, ind, ctx)
+        if isinstance(tgt, ast.Attribute) and isinstance(tgt.value, ast.Name) and tgt.value.id == "self":
+            if self.f.name != "__init__":
+                fail(s, "assignment to a field of self outside __init__")
+            fld = tgt.attr
+            fty = {"variables": "D", "constant": "F"}.get(fld) or fail(s, f"field {fld}")
+            if fld in self.fields:
+                fail(s, f"field {fld} assigned twice")
+            pre, c, t = self.tx(s.value, env)
+            if t != fty:
+                fail(s, f"field {fld} assigned a value of type {t}")
+            if fld == "variables":
+                # the stored dict must be one this function built (so that the new object shares no
+                # dict with the argument): that is what makes copy() and the constructor "fresh"
+                if not (isinstance(s.value, ast.Name) and s.value.id in self.owned(env)):
+                    fail(s, "self.variables must be assigned a dict built by __init__ itself")
+            local = "self_" + fld
+            self.fields[fld] = local
+            env2 = dict(env)
+            env2[local] = fty
+            if isinstance(s.value, ast.Name):
+                env2 = self.with_owned(env2, s.value.id, False)
+            return self.bind_value(local, pre, c, ind) + self.block(rest, env2, ind, ctx)
+        if isinstance(tgt, ast.Subscript):
+            # Python evaluates the right-hand side first, then the container and the key
+            pre, c, t = self.tx(s.value, env)
+            if t != "F":
+                fail(s, f"dict value of type {t}")
+            name, cd, rebuild, pk, ck = self.subscript_target(tgt, env)
+            new = rebuild(f"(dict_set {cd} {ck} {c})")
+            return self.emit_binds(pre + pk, f"{ind}let {pt_cid(name)} := {new} in\n", ind) \
+                + self.block(rest, env, ind, ctx)
+        fail(s, "assignment target")
+
+    def tr_augassign(self, s, rest, env, ind, ctx):
+        tgt = s.target
+        opn = {ast.Add: "qadd", ast.Sub: "qsub", ast.Mult: "qmul"}.get(type(s.op)) or fail(s, "augmented operator")
+        if isinstance(tgt, ast.Subscript):
+            # d[k] op= e : evaluates d, k, loads d[k] (KeyError if absent), then e, then stores
+            name, cd, rebuild, pk, ck = self.subscript_target(tgt, env)
+            old = self.fresh()
+            pre, c, t = self.tx(s.value, env)
+            if t != "F":
+                fail(s, f"dict value of type {t}")
+            new = rebuild(f"(dict_set {cd} {ck} ({opn} {old} {c}))")
+            binds = pk + [(old, f"dict_get {cd} {ck}")] + pre
+            return self.emit_binds(binds, f"{ind}let {pt_cid(name)} := {new} in\n", ind) \
+                + self.block(rest, env, ind, ctx)
+        if isinstance(tgt, ast.Name) and env.get(tgt.id) == "F":
+            pre, c, t = self.tx(s.value, env)
+            if t != "F":
+                fail(s, f"augmented assignment with a value of type {t}")
+            n = pt_cid(tgt.id)
+            return self.emit_binds(pre, f"{ind}let {n} := ({opn} {n} {c}) in\n", ind) + self.block(rest, env, ind, ctx)
+        fail(s, "augmented assignment target")
+
+    def tr_expr_stmt(self, s, rest, env, ind, ctx):
+        v = s.value
+        if isinstance(v, ast.Call) and isinstance(v.func, ast.Attribute) and not v.keywords and len(v.args) == 1:
+            m, base = v.func.attr, v.func.value
+            if m == "append" and isinstance(base, ast.Name) and env.get(base.id) == "LV":
+                self.require_owned(s, base.id, env, "append")
+                pre, c, t = self.tx(v.args[0], env)
+                if t != "V":
+                    fail(s, f"append of {t} to a list of Var")
+                n = pt_cid(base.id)
+                return self.emit_binds(pre, f"{ind}let {n} := list_append {n} {c} in\n", ind) \
+                    + self.block(rest, env, ind, ctx)
+            if m == "pop":
+                # d.pop(k) as a statement (the popped value is discarded)
+                fake = ast.Subscript(value=base, slice=v.args[0], ctx=ast.Store())
+                ast.copy_location(fake, s)
+                name, cd, rebuild, pk, ck = self.subscript_target(fake, env)
+                tmp = self.fresh("d")
+                return self.emit_binds(pk + [(tmp, f"dict_pop_m {cd} {ck}")],
+                                       f"{ind}let {pt_cid(name)} := {rebuild(tmp)} in\n", ind) \
+                    + self.block(rest, env, ind, ctx)
+        fail(s, "expression statement")
+
+    def tr_if(self, s, rest, env, ind, ctx):
+        repl = self.str_guard(s, env)
+        if repl is not None:
+            return self.block(repl + rest, env, ind, ctx)
+        pre, c, t = self.tx(s.test, env)
+        if t != "B":
+            fail(s.test, f"truthiness of a value of type {t}")
+        body, orelse = list(s.body), list(s.orelse)
+        tb, te = self.terminates(body), self.terminates(orelse)
+        ind2 = ind + "  "
+        if (tb and te) and rest:
+            fail(s, "unreachable code after if")
+        if tb or te or not rest:
+            # no join: whichever branch falls through continues with the rest
+            then_txt = self.block(body + ([] if tb else rest), env, ind2, ctx)
+            else_txt = self.block(orelse + ([] if te else rest), env, ind2, ctx)
+            return self.emit_binds(pre, f"{ind}if {c} then\n{then_txt}\n{ind}else\n{else_txt}", ind)
+        # both branches fall through and something follows: join on the variables they assign
+        names = [n for n in self.assigned(body + orelse) if n in env]
+        if not names or set(self.assigned(body + orelse)) - set(names):
+            fail(s, "if-branches (re)bind a name that is not defined before the if")
+        cn = [pt_cid(n) for n in names]
+        tup = "(" + ", ".join(cn) + ")" if len(cn) > 1 else cn[0]
+        pat = "'" + tup if len(cn) > 1 else cn[0]
+        envs = []
+
+        def thunk():
+            del envs[:]
+
+            def fall(env2, i2):
+                envs.append(env2)
+                return f"{i2}{self.ret(tup)}"
+
+            jctx = Ctx(fall)
+            ind3 = ind + "    "
+            return (f"{ind}  (if {c} then\n" + self.block(body, env, ind3, jctx) + f"\n{ind}   else\n"
+                    + self.block(orelse, env, ind3, jctx) + ")")
+
+        txt, mon = self.sub(thunk)
+        env3 = dict(env)
+        for n in names:
+            tys = {e2[n] for e2 in envs}
+            if tys != {env[n]}:
+                fail(s, f"joined variable {n} changes type: {tys}")
+        own = self.owned(env)
+        for e2 in envs:
+            own = own & self.owned(e2)
+        env3["%owned"] = own
+        head = f"{ind}{pat} <-\n{txt} ;;\n" if mon else f"{ind}let {pat} :=\n{txt} in\n"
+        return self.emit_binds(pre, head, ind) + self.block(rest, env3, ind, ctx)
+
+    def tr_for(self, s, rest, env, ind, ctx):
+        if s.orelse:
+            fail(s, "for ... else")
+        env2 = dict(env)
+        src = self.items_source(s.iter, env)
+        if src is not None:
+            pi, ci = src
+            if not (isinstance(s.target, ast.Tuple) and len(s.target.elts) == 2
+                    and all(isinstance(x, ast.Name) for x in s.target.elts)):
+                fail(s, "target of a loop over d.items()")
+            kn, vn = (x.id for x in s.target.elts)
+            env2[kn], env2[vn] = "V", "F"
+            loopvars, prim = f"{pt_cid(kn)} {pt_cid(vn)}", "for_items"
+            targets = [kn, vn]
+        else:
+            pi, ci, ti = self.tx(s.iter, env)
+            if ti not in {"LV", "KV"} or not isinstance(s.target, ast.Name):
+                fail(s, f"iteration over {ti}")
+            env2[s.target.id] = "V"
+            loopvars, prim = pt_cid(s.target.id), "for_list"
+            targets = [s.target.id]
+            # the iterated list must not be updated by the body
+        body_assigned = [n for n in self.assigned(list(s.body))]
+        if set(body_assigned) & set(targets):
+            fail(s, "loop body rebinds the loop variable")
+        for t_ in targets:
+            if t_ in env:
+                fail(s, f"loop variable {t_} shadows a local (it would stay bound after the loop)")
+        for n in ast.walk(s.iter):
+            if isinstance(n, ast.Name) and n.id in body_assigned:
+                fail(s, "loop body updates the object it iterates over")
+        accs = [n for n in body_assigned if n in env]
+        if not accs or set(body_assigned) - set(accs):
+            fail(s, "loop body binds a name that is not defined before the loop")
+        cn = [pt_cid(n) for n in accs]
+        tup = "(" + ", ".join(cn) + ")" if len(cn) > 1 else cn[0]
+        pat = "'" + tup if len(cn) > 1 else cn[0]
+        envs = []
+
+        def thunk():
+            del envs[:]
+
+            def fall(e3, i3):
+                envs.append(e3)
+                return f"{i3}{self.ret(f'(Continue {tup})')}"
+
+            def brk(e3, i3):
+                envs.append(e3)
+                return f"{i3}{self.ret(f'(Break {tup})')}"
+
+            return self.block(list(s.body), env2, ind + "    ", Ctx(fall, brk))
+
+        body, mon = self.sub(thunk)
+        for n in accs:
+            tys = {e3[n] for e3 in envs}
+            if tys != {env[n]}:
+                fail(s, f"loop variable {n} changes type: {tys}")
+        env3 = dict(env)
+        own = self.owned(env)
+        for e3 in envs:
+            own = own & self.owned(e3)
+        env3["%owned"] = own
+        call = f"{prim}{'_m' if mon else ''} {ci} {tup} (fun {pat} {loopvars} =>\n{body})"
+        txt = f"{ind}{pat} <- {call} ;;\n" if mon else f"{ind}let {pat} := {call} in\n"
+        return self.emit_binds(pi, txt, ind) + self.block(rest, env3, ind, ctx)
+
+    # ---------------------------------------------------------------- whole function
+    def end_of_function(self, env, ind):
+        if self.f.name == "__init__":
+            if set(self.fields) != {"variables", "constant"}:
+                fail(self.f, f"__init__ assigns fields {sorted(self.fields)}")
+            return f"{ind}{self.ret('(mkT self_variables self_constant)')}"
+        fail(self.f, "function falls off the end (returns None)")
+
+    def translate(self, params, rtype) -> Tuple[str, bool]:
+        self.rtype = rtype
+        env = {n: t for n, t, _ in params}
+        env["%owned"] = frozenset()
+        if self.f.name != "__init__":
+            env["self"] = "T"
+
+        def run():
+            self.tmp = 0
+            self.fields = {}
+            return self.block(list(self.f.body), env, "  ", Ctx(self.end_of_function, None, True))
+
+        saved = list(self.assumptions)
+        self.monadic = False
+        try:
+            return run(), False
+        except NeedMonad:
+            self.assumptions[:] = saved
+            self.monadic = True
+            return run(), True
+
+
+def pt_calls(fdef) -> List[str]:
+    """names of methods/attributes used on any object in the body (over-approximation of the call graph)"""
+    out = []
+    for n in ast.walk(fdef):
+        if isinstance(n, ast.Attribute):
+            out.append(n.attr)
+        elif isinstance(n, ast.Call) and isinstance(n.func, ast.Name) and n.func.id == PT_CLASS:
+            out.append("__init__")
+        elif isinstance(n, ast.BinOp) and isinstance(n.op, ast.Add):
+            out.append("__add__")
+        elif isinstance(n, ast.Compare) and any(isinstance(o, (ast.Eq, ast.NotEq)) for o in n.ops):
+            out.append("__eq__")
+    return out
+
+
+def gen_term(poly_path) -> Tuple[str, List[str]]:
+    src = open(poly_path).read()
+    mod = ast.parse(src)
+    assumptions: List[str] = []
+    # --- what the module-level names used by the methods mean
+    imported = {}
+    for n in mod.body:
+        if isinstance(n, ast.ImportFrom):
+            for a in n.names:
+                imported[a.asname or a.name] = f"{n.module}.{a.name}"
+        elif isinstance(n, ast.Import):
+            for a in n.names:
+                imported[a.asname or a.name] = a.name
+        elif isinstance(n, (ast.Assign, ast.AugAssign, ast.AnnAssign, ast.Delete)):
+            for t in (n.targets if isinstance(n, (ast.Assign, ast.Delete)) else [n.target]):
+                if PT_CLASS in ast.unparse(t) and not isinstance(t, ast.Name):
+                    raise Unsupported(f"module-level statement touching {PT_CLASS}: {ast.unparse(n)[:80]}")
+        elif isinstance(n, ast.Expr) and isinstance(n.value, ast.Call) and PT_CLASS in ast.unparse(n.value) \
+                and "setattr" in ast.unparse(n.value):
+            raise Unsupported(f"module-level setattr on {PT_CLASS}")
+    for name, want in (("np", "numpy"), ("logging", "logging"), ("list_union", "pacti.utils.lists.list_union"),
+                       ("list_diff", "pacti.utils.lists.list_diff"),
+                       ("list_intersection", "pacti.utils.lists.list_intersection"), ("Var", "pacti.iocontract.Var"),
+                       ("Term", "pacti.iocontract.Term")):
+        if imported.get(name) != want:
+            raise Unsupported(f"module-level name {name} is {imported.get(name)}, expected {want}")
+    toplevel_defs = [n.name for n in mod.body if isinstance(n, (ast.FunctionDef, ast.ClassDef))]
+    for name in ("np", "logging", "list_union", "list_diff", "list_intersection", "Var", "float", "list", "isinstance",
+                 "str", "type"):
+        if name in toplevel_defs or any(isinstance(n, ast.Assign) and any(isinstance(t, ast.Name) and t.id == name
+                                                                          for t in n.targets) for n in mod.body):
+            raise Unsupported(f"module-level redefinition of {name}")
+    numeric = [n for n in mod.body if isinstance(n, ast.Assign) and len(n.targets) == 1
+               and isinstance(n.targets[0], ast.Name) and n.targets[0].id == "numeric"]
+    if len(numeric) != 1 or ast.unparse(numeric[0].value) != "Union[int, float]":
+        raise Unsupported("`numeric` is expected to be Union[int, float]")
+    if toplevel_defs.count(PT_CLASS) != 1:
+        raise Unsupported(f"class {PT_CLASS} defined {toplevel_defs.count(PT_CLASS)} times")
+    cdef = class_def(mod, PT_CLASS)
+    if [ast.unparse(b) for b in cdef.bases] != ["Term"] or cdef.keywords or cdef.decorator_list:
+        raise Unsupported(f"{PT_CLASS} is expected to be a plain subclass of Term")
+    ms = {}
+    for n in cdef.body:
+        if isinstance(n, ast.FunctionDef):
+            if n.name in ms:
+                raise Unsupported(f"{PT_CLASS}.{n.name} defined twice")
+            ms[n.name] = n
+        elif isinstance(n, ast.Expr) and isinstance(n.value, ast.Constant) and isinstance(n.value.value, str):
+            continue
+        else:
+            fail(n, f"class-level statement in {PT_CLASS}")
+    for name in PT_METHODS:
+        if name not in ms:
+            raise Unsupported(f"{PT_CLASS}.{name} missing")
+    for name, f in ms.items():
+        decos = [ast.unparse(d) for d in f.decorator_list]
+        if name in PT_SKIP:
+            continue
+        if name not in PT_METHODS:
+            raise Unsupported(f"unexpected method {PT_CLASS}.{name} (neither translated nor in the skip list)")
+        if decos != (["property"] if name == "vars" else []):
+            raise Unsupported(f"decorators of {PT_CLASS}.{name}: {decos}")
+        a = f.args
+        if a.vararg or a.kwarg or a.kwonlyargs or a.posonlyargs or not a.args or a.args[0].arg != "self":
+            raise Unsupported(f"signature of {PT_CLASS}.{name}")
+        strip_doc(f)
+    skipped = [m for m in PT_SKIP if m in ms]
+    assumptions.append(f"{PT_CLASS}: methods NOT translated (string/hash/sympy/numpy helpers, hand-modelled or out of "
+                       f"scope): {', '.join(sorted(skipped))}")
+    assumptions.append(f"{PT_CLASS}: int and float are one numeric type (exact rationals); float(x) is the identity; "
+                       "NaN/inf/rounding are not modelled")
+    assumptions.append(f"{PT_CLASS}: in-place updates of objects obtained from .copy()/constructor/literal in the same "
+                       "function are rendered as rebinding (checked: the updated name is owned and not aliased)")
+    # --- signatures
+    sigs, rtypes = {}, {}
+    for name in PT_METHODS:
+        f = ms[name]
+        params = []
+        a = f.args
+        defaults = [None] * (len(a.args) - len(a.defaults)) + list(a.defaults)
+        for arg, d in list(zip(a.args, defaults))[1:]:
+            ann = ast.unparse(arg.annotation) if arg.annotation is not None else None
+            if ann not in PT_ANNOT:
+                fail(arg, f"annotation {ann} of parameter {arg.arg} of {name}")
+            if d is not None and not (isinstance(d, ast.Constant) and isinstance(d.value, bool)):
+                fail(arg, "default value")
+            params.append((arg.arg, PT_ANNOT[ann], d))
+        sigs[name] = params
+        rann = ast.unparse(f.returns) if f.returns is not None else None
+        if name == "__init__":
+            if rann not in (None, "None"):
+                fail(f, "return annotation of __init__")
+            rtypes[name] = "T"
+        else:
+            if rann not in PT_ANNOT:
+                fail(f, f"return annotation {rann} of {name}")
+            rtypes[name] = PT_ANNOT[rann]
+    # --- generation order: callees first (ties in the fixed order PT_METHODS); recursion is not supported
+    deps = {m: [c for c in dict.fromkeys(pt_calls(ms[m])) if c in PT_METHODS and c != m] for m in PT_METHODS}
+    for m in PT_METHODS:
+        if m in [c for c in pt_calls(ms[m]) if c not in ("__eq__", "__add__")] and m != "vars":
+            raise Unsupported(f"{PT_CLASS}.{m} refers to itself")
+    order, left = [], list(PT_METHODS)
+    while left:
+        ready = [m for m in left if all(d in order for d in deps[m])]
+        if not ready:
+            raise Unsupported(f"cyclic references between methods {left}")
+        order.append(ready[0])
+        left.remove(ready[0])
+    cls_src = ast.get_source_segment(src, cdef) or ""
+    out = (f"(* GENERATED by /verif/translator/py2coq.py from src/pacti/terms/polyhedra/polyhedra.py, class {PT_CLASS}"
+           " — do not edit.\n"
+           f"   sha256 of the class source: {hashlib.sha256(cls_src.encode()).hexdigest()}\n"
+           f"   translated: {', '.join(order)}\n"
+           f"   NOT translated (skipped on purpose): {', '.join(sorted(skipped))}\n"
+           "   vocabulary: base/PyDict.v.  Monadic (M _) exactly where the body contains d[k], d.pop(k), `/`, raise\n"
+           "   or a call of a monadic method.  In-place updates of local objects are rebindings (see PyDict.v). *)\n"
+           "From Coq Require Import List String Bool QArith.\nImport ListNotations.\n"
+           "Require Import Py ListsGen Sem PyDict.\nOpen Scope py_scope.\nLocal Open Scope Q_scope.\n\n")
+    done: Dict[str, Tuple[bool, str]] = {}
+    for name in order:
+        f = ms[name]
+        fn = TermFn(f, sigs, done, assumptions)
+        body, mon = fn.translate(sigs[name], rtypes[name])
+        ps = ([] if name == "__init__" else [("self", "T")]) + [(n, t) for n, t, _ in sigs[name]]
+        sig = " ".join(f"({pt_cid(n) if n != 'self' else n} : {PT_COQTY[t]})" for n, t in ps)
+        rt = PT_COQTY[rtypes[name]]
+        if " " in rt:
+            rt = f"({rt})"
+        pysig = ast.unparse(f).split("\n")[0 if name != "vars" else 1]
+        out += f"(* {pysig} *)\nDefinition {pt_name(name)} {sig} : {'M ' + rt if mon else rt} :=\n{body}.\n\n"
+        done[name] = (mon, rtypes[name])
+    return out, sorted(set(assumptions))
+
+
 def main(repo, outdir):
     import os
     res = {}
@@ -1064,6 +2043,9 @@ def main(repo, outdir):
     res["AlgebraGen.v"] = alg
     res["ConstGen.v"] = gen_consts(f"{repo}/src/pacti/terms/polyhedra/polyhedra.py",
                                    f"{repo}/src/pacti/contracts/polyhedral_iocontract.py")
+    trm, term_assumptions = gen_term(f"{repo}/src/pacti/terms/polyhedra/polyhedra.py")
+    res["TermGen.v"] = trm
+    assumptions = sorted(set(assumptions) | set(term_assumptions))
     changed = []
     for name, txt in res.items():
         p = os.path.join(outdir, name)
